@@ -1,14 +1,45 @@
 """python -m vmon.worker <prop-module> <spec.json> <out.json>: run one shard in this process."""
 import importlib
 import json
+import os
 import logging
 import sys
 import traceback
 import warnings
 
 
+def start_line_coverage(path):
+    """VMON_COVERAGE=<file>: record which lines of the repository's nbdime package this shard executes (sys.monitoring
+    LINE events, each location disabled after its first hit) - a map of what the workload reaches, written as JSON"""
+    import atexit
+    import os
+    root = os.path.join(os.environ.get("VERIF_REPO", "/repo"), "nbdime") + os.sep
+    mon = sys.monitoring
+    tool = mon.COVERAGE_ID
+    seen = set()
+    try:
+        mon.use_tool_id(tool, "vmon-coverage")
+    except ValueError:
+        return
+
+    def on_line(code, line):
+        fn = code.co_filename
+        if fn.startswith(root) and os.sep + "tests" + os.sep not in fn:
+            seen.add((fn[len(root):], line))
+        return mon.DISABLE
+    mon.register_callback(tool, mon.events.LINE, on_line)
+    mon.set_events(tool, mon.events.LINE)
+
+    def dump():
+        with open(path, "w") as f:
+            json.dump(sorted(seen), f)
+    atexit.register(dump)
+
+
 def main():
     modname, specfile, outfile = sys.argv[1:4]
+    if os.environ.get("VMON_COVERAGE"):
+        start_line_coverage(os.environ["VMON_COVERAGE"] + "." + os.path.basename(specfile))
     warnings.simplefilter("ignore")
     logging.getLogger("nbformat").setLevel(logging.CRITICAL)
     logging.getLogger("nbdime").setLevel(logging.CRITICAL)
